@@ -578,6 +578,8 @@ def naive_find(h, x):
     return None if i < 0 else i
 
 def oracle_blocks(op, kv, res, trace, flags):
+    if op in ("twfind", "twrfind", "twnew", "twrnew"):
+        return oracle_mm(op, kv, res, trace, flags)
     x = bytes.fromhex(kv.get("x", "")); h = bytes.fromhex(kv.get("h", ""))
     if flags:
         return f"{op}: load outside the slices or misaligned: {flags}"
@@ -643,6 +645,11 @@ def nontrivial_blocks(op, kv):
     return len(kv.get("x", "")) >= 4 and len(kv.get("h", "")) >= 8
 
 def gen_c12(tier, rng): return gen_blocks(tier, rng)
+
+def gen_c12_all(tier, rng):
+    # building blocks incl. Two-Way (preprocessing Debug output, forward and reverse searches)
+    tw = gen_tw(tier, rng)
+    return gen_blocks(tier, rng) + tw[:: (3 if tier == 'quick' else 1)]
 
 def gen_c11(tier, rng):
     cases = gen_pp("ppprefilter", tier, rng)
